@@ -113,6 +113,10 @@ def run_case(case, ctx):
         # an artefact): the means of the other ids are unaffected
         spec.amplitudes = spec.amplitudes.astype(np.float64)
         spec.amplitudes[spec.spike_templates == spec.spike_templates.min()] *= 1e12
+    if case['seed'][-1] % 6 == 1 and spec.n_spikes > 6:
+        iz_ = rng.permutation(spec.n_spikes)[:4]            # single spikes with an amplitude of zero / below zero
+        spec.amplitudes[iz_[:2]] = 0
+        spec.amplitudes[iz_[2:]] = -1.5
     if case['seed'][-1] % 5 == 3:
         # every spike of one template has a stored amplitude of exactly 0: its mean is 0 (it has spikes), not NaN
         spec.amplitudes[spec.spike_templates == spec.spike_templates[0]] = 0
